@@ -101,6 +101,18 @@ ODD = [
     "CREATE TABLE Odd_ (a UNIQUE_ID); INSERT INTO Odd_ VALUES (340282366920938463463374607431768211456);",
     "CREATE TABLE Odd_ (a UNIQUE_ID); INSERT INTO Odd_ VALUES (-1);",
     "CREATE TABLE Odd_ (a UNIQUE_ID); INSERT INTO Odd_ VALUES (\"00000000-0000-0000-0000-00000000000\");",
+    "CREATE TABLE Odd2_ (Id INTEGER); CREATE TABLE Odd_ (Id INTEGER, mro INTEGER); "
+    "CREATE ROP REF_ID R1 FROM MC Odd_ (mro) TO 1 Odd2_ (Id); INSERT INTO Odd2_ VALUES (1); INSERT INTO Odd_ VALUES (1);",
+    "CREATE TABLE Odd_ (a INTEGER, b INTEGER); CREATE ROP REF_ID R1 FROM 1C Odd_ (a, b) PHRASE 'next' TO 1C Odd_ (b) "
+    "PHRASE 'prev'; INSERT INTO Odd_ VALUES (1);",
+    "CREATE TABLE Odd_ (a INTEGER, b INTEGER); CREATE TABLE Odd2_ (c INTEGER, d INTEGER); "
+    "CREATE ROP REF_ID R1 FROM MC Odd_ (a) TO 1 Odd2_ (c, d); INSERT INTO Odd2_ VALUES (1); INSERT INTO Odd_ VALUES (1);",
+    "CREATE TABLE Odd2_ (k INTEGER); CREATE TABLE Odd_ (Name STRING, NAME INTEGER); "
+    "CREATE ROP REF_ID R1 FROM MC Odd_ (NAME) TO 1 Odd2_ (k); INSERT INTO Odd2_ VALUES (0); INSERT INTO Odd_ VALUES ('x', 0);",
+    "CREATE TABLE Odd2_ (k STRING); CREATE TABLE Odd_ (Name INTEGER, NAME STRING); "
+    "CREATE ROP REF_ID R1 FROM MC Odd_ (NAME) TO 1 Odd2_ (k); INSERT INTO Odd2_ VALUES (''); INSERT INTO Odd_ VALUES (0, '');",
+    "CREATE TABLE Odd_ (mro INTEGER, first STRING, last STRING, items REAL, keys BOOLEAN, clazz UNIQUE_ID); "
+    "INSERT INTO Odd_ VALUES (1, 'a', 'b', 1.5, TRUE, 7);",
     "CREATE TABLE M (MC M); INSERT INTO M VALUES (1);",
     "CREATE TABLE Odd_ (a INTEGER); CREATE TABLE Odd2_ (b INTEGER); CREATE ROP REF_ID R1 FROM M Odd_ (a) TO MC Odd2_ (b);",
 ]
